@@ -61,6 +61,34 @@ func runC06(c *Ctx) {
 		if minconfIdx < 0 || accountIdx < 0 || scopeIdx < 0 || filterIdx < 0 {
 			minconfIdx, accountIdx, scopeIdx, filterIdx = 4, 3, 2, 6
 		}
+		// v is findEligibleOutputs' parameter #idx — directly, or as the parameter of a predicate part it was handed to
+		// (resolved through the frames set up while that part is analysed)
+		var isFeoParam func(v ssa.Value, idx int) bool
+		isFeoParam = func(v ssa.Value, idx int) bool {
+			for hops := 0; hops < 4; hops++ {
+				prm, ok := stripConv(v).(*ssa.Parameter)
+				if !ok {
+					return false
+				}
+				if prm.Parent() == feo {
+					return paramIndex(feo, prm) == idx
+				}
+				found := false
+				for k := len(p.linFrames) - 1; k >= 0; k-- {
+					if p.linFrames[k].fn == prm.Parent() {
+						if pi := paramIndex(prm.Parent(), prm); pi >= 0 && pi < len(p.linFrames[k].args) {
+							v = p.linFrames[k].args[pi]
+							found = true
+						}
+						break
+					}
+				}
+				if !found {
+					return false
+				}
+			}
+			return false
+		}
 		confirmedCall := func(v ssa.Value) (*ssa.Call, bool) {
 			call, ok := v.(*ssa.Call)
 			if !ok || calleeShort(&call.Call) != "confirmed" || len(call.Call.Args) != 3 {
@@ -74,19 +102,19 @@ func runC06(c *Ctx) {
 		}
 		type filt struct {
 			name, detail string
-			cut          func(from *ssa.BasicBlock, si int) bool
+			holds        func(cond ssa.Value, taken bool) bool // cond having the value taken establishes the filter
 		}
 		filters := []filt{
-			{"minconf", "an output with fewer than the requested confirmations (confirmed(minconf, output.Height, tip.Height) false) can be selected", func(from *ssa.BasicBlock, si int) bool {
-				f := edgeFactOf(from, si)
+			{"minconf", "an output with fewer than the requested confirmations (confirmed(minconf, output.Height, tip.Height) false) can be selected", func(cond ssa.Value, taken bool) bool {
+				f := condFactOf(cond, taken)
 				if f == nil || f.Kind != "true" {
 					return false
 				}
 				call, ok := confirmedCall(f.V)
 				return ok && isPlainAtom(p.linearize(call.Call.Args[0], 0), fmt.Sprintf("param#%d", minconfIdx)) && heightsPlain(call)
 			}},
-			{"coinbase-maturity", "an immature coinbase output can be selected (coinbase => confirmed(CoinbaseMaturity, output.Height, tip.Height) with the plain heights)", func(from *ssa.BasicBlock, si int) bool {
-				f := edgeFactOf(from, si)
+			{"coinbase-maturity", "an immature coinbase output can be selected (coinbase => confirmed(CoinbaseMaturity, output.Height, tip.Height) with the plain heights)", func(cond ssa.Value, taken bool) bool {
+				f := condFactOf(cond, taken)
 				if f == nil {
 					return false
 				}
@@ -99,16 +127,12 @@ func runC06(c *Ctx) {
 				call, ok := confirmedCall(f.V)
 				return ok && isPlainAtom(p.linearize(call.Call.Args[0], 0), "field:CoinbaseMaturity") && heightsPlain(call)
 			}},
-			{"not-user-locked", "an outpoint locked by the user (LockedOutpoint) can be selected", func(from *ssa.BasicBlock, si int) bool {
-				f := edgeFactOf(from, si)
+			{"not-user-locked", "an outpoint locked by the user (LockedOutpoint) can be selected", func(cond ssa.Value, taken bool) bool {
+				f := condFactOf(cond, taken)
 				return f != nil && f.Kind == "false" && isResultOfCall(f.V, "LockedOutpoint", -1)
 			}},
-			{"requested-account", "an output credited to a different account can be selected", func(from *ssa.BasicBlock, si int) bool {
-				iff, ok := from.Instrs[len(from.Instrs)-1].(*ssa.If)
-				if !ok {
-					return false
-				}
-				f, ok := p.cmpForm(iff.Cond, si == 0)
+			{"requested-account", "an output credited to a different account can be selected", func(cond ssa.Value, taken bool) bool {
+				f, ok := p.cmpForm(cond, taken)
 				if !ok || f.Rel != "==" {
 					return false
 				}
@@ -116,12 +140,12 @@ func runC06(c *Ctx) {
 				_, b := f.L.Coef[fmt.Sprintf("param#%d", accountIdx)]
 				return a && b && len(f.L.Coef) == 2 && f.L.Konst == 0
 			}},
-			{"requested-scope", "an output of a different key scope can be selected although a scope was requested", func(from *ssa.BasicBlock, si int) bool {
-				f := edgeFactOf(from, si)
+			{"requested-scope", "an output of a different key scope can be selected although a scope was requested", func(cond ssa.Value, taken bool) bool {
+				f := condFactOf(cond, taken)
 				if f == nil {
 					return false
 				}
-				if prm, ok := f.V.(*ssa.Parameter); ok && paramIndex(feo, prm) == scopeIdx && f.Kind == "nil" {
+				if isFeoParam(f.V, scopeIdx) && f.Kind == "nil" {
 					return true
 				}
 				b, ok := f.V.(*ssa.BinOp)
@@ -133,29 +157,76 @@ func runC06(c *Ctx) {
 				}
 				return (b.Op == token.EQL) == (f.Kind == "true")
 			}},
-			{"caller-filter", "an output rejected by the caller-supplied filter can be selected", func(from *ssa.BasicBlock, si int) bool {
-				f := edgeFactOf(from, si)
+			{"caller-filter", "an output rejected by the caller-supplied filter can be selected", func(cond ssa.Value, taken bool) bool {
+				f := condFactOf(cond, taken)
 				if f == nil {
 					return false
 				}
-				if prm, ok := f.V.(*ssa.Parameter); ok && paramIndex(feo, prm) == filterIdx && f.Kind == "nil" {
+				if isFeoParam(f.V, filterIdx) && f.Kind == "nil" {
 					return true
 				}
 				if call, ok := f.V.(*ssa.Call); ok && f.Kind == "true" {
-					if prm, ok := call.Call.Value.(*ssa.Parameter); ok && paramIndex(feo, prm) == filterIdx {
+					if isFeoParam(call.Call.Value, filterIdx) {
 						return true
 					}
 				}
 				return false
 			}},
-			{"address-resolves", "an output whose address/account cannot be resolved can be selected", func(from *ssa.BasicBlock, si int) bool {
-				f := edgeFactOf(from, si)
+			{"address-resolves", "an output whose address/account cannot be resolved can be selected", func(cond ssa.Value, taken bool) bool {
+				f := condFactOf(cond, taken)
 				return f != nil && f.Kind == "nil" && isResultOfCall(f.V, "AddrAccount", 2)
 			}},
 		}
+		// a filter may sit in a predicate part of the loop body (`if !w.outputSpendableAt(...) { continue }`): the true edge
+		// of such a call establishes every filter without which the part cannot answer true
+		edgeCut := func(holds func(ssa.Value, bool) bool) func(*ssa.BasicBlock, int) bool {
+			return func(from *ssa.BasicBlock, si int) bool {
+				if len(from.Instrs) == 0 || len(from.Succs) != 2 {
+					return false
+				}
+				iff, ok := from.Instrs[len(from.Instrs)-1].(*ssa.If)
+				return ok && holds(iff.Cond, si == 0)
+			}
+		}
+		establishes := func(from *ssa.BasicBlock, si int, holds func(ssa.Value, bool) bool) bool {
+			f := edgeFactOf(from, si)
+			if f == nil || f.Kind != "true" {
+				return false
+			}
+			call, ok := f.V.(*ssa.Call)
+			if !ok {
+				return false
+			}
+			h := call.Call.StaticCallee()
+			if h == nil || len(h.Blocks) == 0 || fnPkgPath(h) != fnPkgPath(feo) || h.Object() == nil || h.Object().Exported() ||
+				h.Signature.Results().Len() != 1 || !isBoolType(h.Signature.Results().At(0).Type()) {
+				return false
+			}
+			est := false
+			p.withFrame(h, call.Call.Args, func() {
+				q := &PathQuery{Fn: h, EdgeBarrier: edgeCut(holds)}
+				q.Target = func(ins ssa.Instruction, via *ssa.BasicBlock) bool {
+					r, isR := ins.(*ssa.Return)
+					if !isR {
+						return false
+					}
+					v := resolvePhi(r.Results[0], r.Block(), via)
+					if bv, isC := constBool(v); isC {
+						return bv
+					}
+					// `return addrAcct == account`: answers true only when the returned condition holds
+					return !holds(v, true)
+				}
+				est = len(q.From(nil)) == 0
+			})
+			return est
+		}
 		for _, ap := range appends {
 			for _, fl := range filters {
-				ok := !reachableAvoiding(feo, nil, ap, fl.cut)
+				holds, cut := fl.holds, edgeCut(fl.holds)
+				ok := !reachableAvoiding(feo, nil, ap, func(from *ssa.BasicBlock, si int) bool {
+					return cut(from, si) || establishes(from, si, holds)
+				})
 				c.Check("C06-R1", "eligible-append-guarded-by:"+fl.name, ap.Pos(), ok, fl.detail)
 			}
 			// candidates come from UnspentOutputs
@@ -466,12 +537,15 @@ func checkExplicitInputsPassEligibility(c *Ctx, rule string) {
 			continue
 		}
 		n++
-		fn := call.Parent()
-		q := &PathQuery{Fn: fn, Barrier: p.reachingCall(fe)}
-		q.Target = func(ins ssa.Instruction, _ *ssa.BasicBlock) bool { return ins == ssa.Instruction(call) }
-		okE := len(q.From(nil)) == 0
-		c.Check(rule, "explicit-inputs-pass-eligibility:"+outermost(fn).Name(), call.Pos(), okE,
-			outermost(fn).Name()+" funds a transaction from caller-given outpoints without matching them against the eligible set (minconf, maturity, account/scope, user locks, leases, unconfirmed spends): ineligible explicit inputs are accepted")
+		// the function that owns the funding (the call may sit in a private part of it)
+		owner := p.regionOwner(call.Parent())
+		okE := p.precededInRegion(owner, call, func(f *ssa.Function, at ssa.Instruction) bool {
+			q := &PathQuery{Fn: f, Barrier: p.reachingCall(fe)}
+			q.Target = func(ins ssa.Instruction, _ *ssa.BasicBlock) bool { return ins == at }
+			return len(q.From(nil)) == 0
+		}, 0)
+		c.Check(rule, "explicit-inputs-pass-eligibility:"+owner.Name(), call.Pos(), okE,
+			owner.Name()+" funds a transaction from caller-given outpoints without matching them against the eligible set (minconf, maturity, account/scope, user locks, leases, unconfirmed spends): ineligible explicit inputs are accepted")
 	}
 	c.Floor(rule, "constant input sources built from explicit inputs", n, 2)
 }
@@ -728,6 +802,58 @@ func appendedElems(call *ssa.Call) []ssa.Value {
 func checkInputValuesAreCoinAmounts(c *Ctx, rule string) {
 	p := c.P
 	n := 0
+	isCoinAmount := func(v ssa.Value) bool {
+		tn, fld, _, okf := fieldOf(stripConv(v))
+		return okf && ((tn == "Credit" && fld == "Amount") || (tn == "TxOut" && fld == "Value"))
+	}
+	seenFn := map[*ssa.Function]bool{}
+	var visit func(name string, f *ssa.Function, depth int)
+	visit = func(name string, f *ssa.Function, depth int) {
+		if seenFn[f] || depth > 2 {
+			return
+		}
+		seenFn[f] = true
+		for _, ci := range callsOf(f) {
+			call, ok := ci.(*ssa.Call)
+			if !ok {
+				continue
+			}
+			if calleeShort(&call.Call) != "append" {
+				// the accumulating state may be a small struct with an add method shared by both sources
+				if g := call.Call.StaticCallee(); g != nil && len(g.Blocks) > 0 && fnPkgPath(g) == fnPkgPath(f) && g.Object() != nil && !g.Object().Exported() {
+					for _, cl := range Closures(g) {
+						visit(name, cl, depth+1)
+					}
+				}
+				continue
+			}
+			st, ok := call.Type().Underlying().(*types.Slice)
+			if !ok {
+				continue
+			}
+			nm, ok := st.Elem().(*types.Named)
+			if !ok || nm.Obj().Name() != "Amount" {
+				continue
+			}
+			for _, v := range appendedElems(call) {
+				okVal := isCoinAmount(v)
+				if prm, isPrm := stripConv(v).(*ssa.Parameter); isPrm && !okVal {
+					// recorded through a helper's parameter: what its call sites pass
+					idx := paramIndex(prm.Parent(), prm)
+					sites := p.realCallers(prm.Parent())
+					okVal = len(sites) > 0
+					for _, cs := range sites {
+						if idx >= len(cs.Common().Args) || !isCoinAmount(cs.Common().Args[idx]) {
+							okVal = false
+						}
+					}
+				}
+				n++
+				c.Check(rule, "input-value-is-the-coin-amount:"+name, call.Pos(), okVal,
+					fnName(f)+" records as the value of an input something other than the Amount of the credit it spends: the signer commits to that value, so every segwit / taproot input after the first is signed for the wrong amount — the wallet's own check (same list) passes, the network rejects the transaction")
+			}
+		}
+	}
 	for _, name := range []string{"makeInputSource", "constantInputSource"} {
 		top := p.Func("wallet", "", name)
 		if top == nil {
@@ -735,26 +861,7 @@ func checkInputValuesAreCoinAmounts(c *Ctx, rule string) {
 			continue
 		}
 		for _, f := range p.regionOf(top) {
-			for _, ci := range callsOf(f) {
-				call, ok := ci.(*ssa.Call)
-				if !ok || calleeShort(&call.Call) != "append" {
-					continue
-				}
-				st, ok := call.Type().Underlying().(*types.Slice)
-				if !ok {
-					continue
-				}
-				nm, ok := st.Elem().(*types.Named)
-				if !ok || nm.Obj().Name() != "Amount" {
-					continue
-				}
-				for _, v := range appendedElems(call) {
-					n++
-					tn, fld, _, okf := fieldOf(stripConv(v))
-					c.Check(rule, "input-value-is-the-coin-amount:"+name, call.Pos(), okf && ((tn == "Credit" && fld == "Amount") || (tn == "TxOut" && fld == "Value")),
-						fnName(f)+" records as the value of an input something other than the Amount of the credit it spends: the signer commits to that value, so every segwit / taproot input after the first is signed for the wrong amount — the wallet's own check (same list) passes, the network rejects the transaction")
-				}
-			}
+			visit(name, f, 0)
 		}
 	}
 	c.Floor(rule, "input values recorded by the input sources", n, 2)
